@@ -433,6 +433,63 @@ func runC12(c *Ctx) {
 			return ok && termOf(st.Addr).lastField() == "RequeueAfter"
 		}, 2) {
 			in := h.In
+			// the delay may be computed by a helper that returns either the delay it was handed (no retry) or the
+			// back-off: then every way the helper returns a NEW delay is judged, inside the helper, with the error
+			// parameter that receives UpdateStatus's error
+			if cl, isCall := in.(*ssa.Store).Val.(*ssa.Call); isCall && in.Parent() == us && cl.Call.StaticCallee() != nil && len(cl.Call.StaticCallee().Blocks) > 0 && hasModPrefix(cl.Call.StaticCallee()) {
+				g := cl.Call.StaticCallee()
+				errIdx := -1
+				for i, a := range cl.Call.Args {
+					if prm, isP := a.(*ssa.Parameter); isP && prm == us.Params[4] {
+						errIdx = i
+					}
+				}
+				okAll, nNew := true, 0
+				judge := func(fs FactSet) bool {
+					return fx.acceptWithExpansion(fs, func(s FactSet) bool {
+						_, limSet := hasFact(s, func(f Fact) bool {
+							return !f.Pol && f.T.Op == "bin" && f.T.Name == "==" && (f.T.Args[0].lastField() == "BackoffLimit" || strings.Contains(f.T.Args[0].String(), "BackoffLimit")) && f.T.Args[1].isNilConst()
+						})
+						_, below := hasFact(s, func(f Fact) bool {
+							return f.Pol && f.T.Op == "bin" && f.T.Name == "<" && f.T.Args[0].lastField() == "FailedAttempts" && strings.Contains(f.T.Args[1].String(), "BackoffLimit")
+						})
+						_, failed := hasFact(s, func(f Fact) bool {
+							return !f.Pol && f.T.Op == "bin" && f.T.Name == "==" && errIdx >= 0 && rootParam(f.T.Args[0]) == errIdx && f.T.Args[1].isNilConst()
+						})
+						return limSet && below && failed
+					})
+				}
+				for _, b := range g.Blocks {
+					ret, ok := b.Instrs[len(b.Instrs)-1].(*ssa.Return)
+					if !ok || len(ret.Results) != 1 {
+						continue
+					}
+					if phi, isPhi := ret.Results[0].(*ssa.Phi); isPhi {
+						for i, e := range phi.Edges {
+							if _, pass := e.(*ssa.Parameter); pass {
+								continue
+							}
+							nNew++
+							pred := phi.Block().Preds[i]
+							fs := fx.FactsAt(pred.Instrs[len(pred.Instrs)-1]).clone()
+							fs.addAll(fx.edgeFacts(pred, phi.Block(), 0))
+							if !judge(fs) {
+								okAll = false
+							}
+						}
+						continue
+					}
+					if _, pass := ret.Results[0].(*ssa.Parameter); pass {
+						continue
+					}
+					nNew++
+					if !fx.allPathsSatisfy(ret, func(s FactSet) bool { return judge(s) }) {
+						okAll = false
+					}
+				}
+				c.Check(okAll && nNew > 0, "O5", "ABS", funcKey(us)+": a retry is scheduled iff limit set ∧ attempts < limit ∧ the attempt failed", instrPos(in), "BackoffLimit != nil ∧ FailedAttempts < *BackoffLimit ∧ err != nil (in "+g.Name()+")", "the binder's retry condition no longer complements the scheduler's terminal condition")
+				continue
+			}
 			fs := fx.factsAtDeep(h)
 			_, limSet := hasFact(fs, func(f Fact) bool {
 				return !f.Pol && f.T.Op == "bin" && f.T.Name == "==" && f.T.Args[0].lastField() == "BackoffLimit" && f.T.Args[1].isNilConst()
